@@ -300,6 +300,12 @@ def run(report, tier, seed):
     hs = hs[k:] + hs[:k]
     n = max(core.jobs() * 4, len(hs) // 2)
     shards = [("seq", (hs[i::n], max_draws)) for i in range(n) if hs[i::n]]
+    # the first requests of a process: one history per freshly forked process (the parent has created nothing), so
+    # that state built lazily by whichever class comes first is exercised with every class coming first
+    firsts = [("dwr", "req"), ("ulr", "req"), ("dwr", "ulr"), ("ulr", "dwr"), ("req", "dwr"), ("dwr", "req", "ulr"), ("ulr", "req", "dwr")]
+    if tier == "thorough":
+        firsts += [h for h in itertools.product(["req", "dwr", "ulr"], repeat=3) if len(set(h)) > 1]
+    shards += [("seq", ([h], max_draws)) for h in firsts]
     conc = [(dict(k=2, kinds=["req", "req"]), 2), (dict(k=2, kinds=["req", "dwr"]), 2)]
     if tier == "thorough":
         conc += [(dict(k=3, kinds=["req", "req", "dwr"]), 2), (dict(k=2, kinds=["req", "req"]), 3)]
